@@ -15,6 +15,9 @@ INTEGRATIONS = {
     'aiohttp': ('pjrpc.server.integration.aiohttp.Application', None),
     'flask': ('pjrpc.server.integration.flask.JsonRPC', None),
     'werkzeug': ('pjrpc.server.integration.werkzeug.JsonRPC', 'wsgi_app'),
+    # not installed in the sandbox: nothing can be run against them, but their handlers are read like the others
+    'django': ('pjrpc.server.integration.django.sites.JsonRPCSite', None),
+    'starlette': ('pjrpc.server.integration.starlette.Application', None),
 }
 
 # framework accessor table (trusted base; re-derived from the installed framework sources in the thorough tier)
@@ -26,9 +29,44 @@ ACCESSORS = {
     ('flask', 'content_type'): 'raw-header',
     ('flask', 'is_json'): 'json-predicate',          # only application/json and application/*+json
     ('werkzeug', 'is_json'): 'json-predicate',
+    ('django', 'content_type'): 'media-type',        # django.http.HttpRequest.content_type: parse_header_parameters(): parameter-free, lower-cased
 }
 REFUSALS = {'aiohttp.web.HTTPUnsupportedMediaType': 415, 'werkzeug.exceptions.UnsupportedMediaType': 415}
-BADREQ = {'aiohttp.web.HTTPBadRequest': 400, 'werkzeug.exceptions.BadRequest': 400}
+BADREQ = {'aiohttp.web.HTTPBadRequest': 400, 'werkzeug.exceptions.BadRequest': 400, 'django.http.HttpResponseBadRequest': 400,
+          'django.http.response.HttpResponseBadRequest': 400}
+# reply constructors: which keyword carries the body / the status / the content type (a keyword the constructor does not have is a TypeError)
+REPLY_KW = {
+    'aiohttp': (('text', 'body'), ('status',), ('content_type',)),
+    'flask': (('response',), ('status',), ('mimetype', 'content_type')),
+    'werkzeug': (('response',), ('status',), ('mimetype', 'content_type')),
+    'django': (('content',), ('status',), ('content_type',)),
+    'starlette': (('content',), ('status_code',), ('media_type',)),
+}
+# status-carrying generic classes: the code is the first argument / the status keyword
+GENERIC_STATUS = {'starlette.exceptions.HTTPException': ('status_code', 0), 'django.http.HttpResponse': ('status', None),
+                  'django.http.response.HttpResponse': ('status', None), 'starlette.responses.Response': ('status_code', None)}
+
+
+def status_of(prog: Program, f: FuncInfo, st: ast.AST) -> Optional[int]:
+    """The HTTP status a `raise X(...)` / `return X(...)` statement answers with, when it can be read off the statement."""
+    e = st.exc if isinstance(st, ast.Raise) else st.value if isinstance(st, ast.Return) else None
+    if e is None:
+        return None
+    ent = prog.resolve(f.module, e.func if isinstance(e, ast.Call) else e)
+    name = prog.exc_name(ent) or (ent if isinstance(ent, str) else None)
+    if name in REFUSALS:
+        return REFUSALS[name]
+    if name in BADREQ:
+        return BADREQ[name]
+    if name in GENERIC_STATUS and isinstance(e, ast.Call):
+        kw, pos = GENERIC_STATUS[name]
+        v = next((k.value for k in e.keywords if k.arg == kw), None)
+        if v is None and pos is not None and len(e.args) > pos:
+            v = e.args[pos]
+        if isinstance(v, ast.Constant) and isinstance(v.value, int):
+            return v.value
+        return 200 if v is None and isinstance(st, ast.Return) else None
+    return None
 
 
 def handler_of(prog: Program, ci: ClassInfo) -> FuncInfo:
@@ -105,12 +143,9 @@ def integration_facts(prog: Program, fw: str, ci: ClassInfo) -> Tuple[Dict[str, 
         if c.kind != 'cond':
             continue
         for e in cfg.succ[c.id]:
-            if e.label in ('T', 'F') and isinstance(e.dst.ast, ast.Raise):
-                exc = e.dst.ast.exc
-                ent = prog.resolve(f.module, exc.func if isinstance(exc, ast.Call) else exc) if exc is not None else None
-                name = prog.exc_name(ent)
-                if name in REFUSALS:
-                    gates.append((c, e, name))
+            if e.label in ('T', 'F') and isinstance(e.dst.ast, (ast.Raise, ast.Return)) and status_of(prog, f, e.dst.ast) == 415:
+                v_ = e.dst.ast.exc if isinstance(e.dst.ast, ast.Raise) else e.dst.ast.value
+                gates.append((c, e, norm(v_.func if isinstance(v_, ast.Call) else v_) + ('(415)' if isinstance(v_, ast.Call) and (v_.args or v_.keywords) else '')))
     facts['refusal'] = sorted({g[2].rsplit('.', 1)[-1] for g in gates})
     if not gates:
         problems.append(('GATE-MEDIA', 'no media-type gate', f.node.lineno,
@@ -139,13 +174,23 @@ def integration_facts(prog: Program, fw: str, ci: ClassInfo) -> Tuple[Dict[str, 
                                 more += [st.value for st in walk_own(f.node) if isinstance(st, ast.Assign) and any(isinstance(t, ast.Name) and t.id == y.id for t in st.targets)]
                     srcs += [m for m in more if m not in srcs]
                 txt = ' '.join(norm(x) for x in srcs)
+                hdr = [y for sx in srcs for y in ast.walk(sx) if isinstance(y, ast.Constant) and isinstance(y.value, str) and
+                       ('headers' in norm(sx))]
+                wrong = [y.value for y in hdr if y.value.lower().replace('_', '-') not in ('content-type', 'http-content-type', '')]
+                if 'headers' in txt and wrong and not any(y.value.lower().replace('_', '-') in ('content-type', 'http-content-type') for y in hdr):
+                    problems.append(('GATE-MEDIA', f'gate reads the header {wrong[0]!r}', c.line,
+                                     f'{fw}: `{norm(cond)}` reads the request header {wrong[0]!r}, not Content-Type: the media type of the request '
+                                     f'is never looked at (a missing header raises KeyError -> 500, anything else is refused or admitted by accident)'))
                 if 'headers' in txt or 'content_type' in txt or 'CONTENT_TYPE' in txt:
                     k = 'hand-parsed-header'
                     facts['gate'] = 'hand-parsed header'
                     problems.append(('GATE-MEDIA', 'gate compares a hand-parsed Content-Type header', c.line,
                                      f'{fw}: `{norm(cond)}` compares a value derived from the raw header (`{txt[:80]}`): unlike the framework\'s media-type '
                                      f'accessor it is not normalised (case, whitespace around ";"), so documented types such as "Application/JSON" or '
-                                     f'"application/json ; charset=utf-8" are refused with 415'))
+                                     f'"application/json ; charset=utf-8" — with the header compared as sent, every documented type that carries a '
+                                     f'parameter ("application/json; charset=utf-8") — are refused with 415'
+                                     + ('; a request without the header raises KeyError (500) instead of being refused with 415'
+                                        if isinstance(cond.left, ast.Subscript) else '')))
             kind = f'{k} {"not in" if refuse_when_not_in else "in"} {"REQUEST_CONTENT_TYPES" if table_ok else norm(cond.comparators[0])}'
             facts['gate'] = kind
             if k == 'hand-parsed-header':
@@ -185,14 +230,14 @@ def integration_facts(prog: Program, fw: str, ci: ClassInfo) -> Tuple[Dict[str, 
                              f'{fw}: the dispatcher can be called for a request that did not pass the media-type gate'))
     # anything executed before the gate that dispatches?
     # ---- decode error → 400 ---------------------------------------------------------------------------
-    bad = [n for n in cfg.stmt_nodes() if isinstance(n.ast, ast.Raise) and n.handler is not None]
+    bad = [n for n in cfg.stmt_nodes() if isinstance(n.ast, (ast.Raise, ast.Return)) and n.handler is not None]
     badnames = []
     for n in bad:
-        exc = n.ast.exc
-        ent = prog.resolve(f.module, exc.func if isinstance(exc, ast.Call) else exc) if exc is not None else None
-        badnames.append((prog.exc_name(ent) or '?', n.handler.caught))
-    facts['undecodable_body'] = sorted(f'{"|".join(c)}->{nm.rsplit(".", 1)[-1]}' for nm, c in badnames)
-    if not any(nm in BADREQ and 'UnicodeDecodeError' in c for nm, c in badnames):
+        code = status_of(prog, f, n.ast)
+        v_ = n.ast.exc if isinstance(n.ast, ast.Raise) else n.ast.value
+        badnames.append((norm(v_.func if isinstance(v_, ast.Call) else v_) if v_ is not None else '?', code, n.handler.caught))
+    facts['undecodable_body'] = sorted(f'{"|".join(c)}->{nm.rsplit(".", 1)[-1]}' for nm, code, c in badnames)
+    if not any(code == 400 and 'UnicodeDecodeError' in c for nm, code, c in badnames):
         problems.append(('RELAY', 'non-UTF-8 body is not answered with 400', f.node.lineno,
                          f'{fw}: a body that cannot be decoded must be refused with 400 Bad Request'))
     # ---- relay ------------------------------------------------------------------------------------------
@@ -214,6 +259,46 @@ def integration_facts(prog: Program, fw: str, ci: ClassInfo) -> Tuple[Dict[str, 
         elif isinstance(v_, ast.Call) and isinstance(v_.func, ast.Attribute) and v_.func.attr == 'get_data':
             as_text = [kw.value for kw in v_.keywords if kw.arg == 'as_text']
             body_kinds.add('text' if as_text and isinstance(as_text[0], ast.Constant) and as_text[0].value is True else 'bytes')
+        elif isinstance(v_, ast.Call) and isinstance(v_.func, ast.Attribute) and v_.func.attr == 'decode':
+            # decoded by hand (django / starlette give bytes): the decode sits where its UnicodeDecodeError is answered with 400, and
+            # the codec it is given is never a falsy value of the request (`request.encoding and 'utf8'` passes None on)
+            dn_ = al.node if al.node is not None and getattr(al.node, 'ast', None) is not None else None
+            guarded = False
+            for n_ in cfg.stmt_nodes():
+                if any(y is v_ for y in ast.walk(n_.ast)):
+                    dn_ = n_
+            if dn_ is not None:
+                for e_ in cfg.succ[dn_.id]:
+                    if e_.dst.kind == 'handler' and 'UnicodeDecodeError' in (e_.dst.caught or ()):
+                        guarded = True
+                if not guarded:
+                    # without an exception oracle the CFG has no exception edges: fall back to the enclosing try statements
+                    for t_ in [x for x in walk_own(f.node) if isinstance(x, ast.Try)]:
+                        if any(y is v_ for b_ in t_.body for y in ast.walk(b_)):
+                            for h_ in t_.handlers:
+                                names_ = [dotted(x) for x in (h_.type.elts if isinstance(h_.type, ast.Tuple) else [h_.type])] if h_.type is not None else ['BaseException']
+                                if any((nm or '').rsplit('.', 1)[-1] in ('UnicodeDecodeError', 'UnicodeError', 'ValueError', 'Exception', 'BaseException') for nm in names_):
+                                    guarded = True
+            body_kinds.add('text' if guarded else 'decoded outside the 400 guard')
+            codec = v_.args[0] if v_.args else next((k.value for k in v_.keywords if k.arg == 'encoding'), None)
+            if codec is not None:
+                def may_be_falsy(x: ast.expr) -> bool:
+                    if isinstance(x, ast.Constant):
+                        return not x.value
+                    if isinstance(x, ast.BoolOp) and isinstance(x.op, ast.Or):
+                        return all(may_be_falsy(y) for y in x.values)
+                    if isinstance(x, ast.BoolOp) and isinstance(x.op, ast.And):
+                        return any(may_be_falsy(y) for y in x.values)
+                    if isinstance(x, ast.IfExp):
+                        return may_be_falsy(x.body) or may_be_falsy(x.orelse)
+                    return True
+                facts['codec'] = norm(codec)
+                if may_be_falsy(codec) and not isinstance(codec, (ast.Name, ast.Attribute)):
+                    problems.append(('RELAY', f'body decoded with `{norm(codec)}`', dn.line,
+                                     f'{fw}: `{norm(v_)}`: the codec expression can evaluate to a falsy value of the request (no charset '
+                                     f'declared -> None): bytes.decode(None) raises TypeError, which no handler turns into a reply — an ordinary '
+                                     f'`Content-Type: application/json` POST gets 500 and nothing is dispatched; the declared charset must fall '
+                                     f'back to a fixed codec (`request.encoding or \'utf8\'`)'))
         elif isinstance(v_, ast.Attribute) and v_.attr == 'data':
             body_kinds.add('bytes')
         else:
@@ -265,16 +350,22 @@ def integration_facts(prog: Program, fw: str, ci: ClassInfo) -> Tuple[Dict[str, 
             if unpack:
                 els = unpack[0].ast.targets[0].elts
                 tvar, cvar = dotted(els[0]), dotted(els[1])
-            body = v.args[0] if v.args else kws.get('text') or kws.get('response')
+            bkw, skw, ckw = REPLY_KW[fw]
+            body = v.args[0] if v.args else next((kws[k] for k in bkw if k in kws), None)
             body_ok = body is not None and dotted(body) == tvar
-            st = kws.get('status')
+            st = next((kws[k] for k in skw if k in kws), None)
+            alien = sorted(set(kws) - set(bkw) - set(skw) - set(ckw) - {'headers'})
+            if alien and 'json_response' not in norm(v.func):
+                problems.append(('RELAY', f'reply built with the keyword `{alien[0]}`', n.line,
+                                 f'{fw}: `{norm(v)[:90]}`: the reply constructor of this framework takes {bkw[0]} / {skw[0]} / {ckw[0]}; '
+                                 f'`{alien[0]}=` is not one of them (TypeError, or the value is ignored)'))
             status = 'default-200'
             if st is not None:
                 if isinstance(st, ast.Call) and 'status_by_error' in norm(st.func) and st.args and dotted(st.args[0]) == cvar:
                     status = 'status_by_error(codes)'
                 else:
                     status = norm(st)
-            explicit_ct = kws.get('mimetype') or kws.get('content_type')
+            explicit_ct = next((kws[k] for k in ckw if k in kws), None)
             ctype = 'json_response default' if ('json_response' in norm(v.func) and explicit_ct is None) else \
                 norm(explicit_ct or ast.Constant(value='?'))
             if 'json_response' in norm(v.func) and explicit_ct is not None and not ctype.endswith('DEFAULT_CONTENT_TYPE') and ctype != "'application/json'":
@@ -353,16 +444,20 @@ def route_bind(ck: Check, prog: Program) -> None:
 
 
 def run(ck: Check, prog: Program) -> None:
-    ck.explain('Per integration (aiohttp, flask, werkzeug): the media-type gate compares a parameter-free media-type accessor of the '
+    ck.explain('Per integration (aiohttp, flask, werkzeug, django, starlette): the media-type gate compares a parameter-free media-type accessor of the '
                'framework with pjrpc.common.REQUEST_CONTENT_TYPES and dominates the dispatch call; a refusal is answered (an HTTP '
                'exception may only be raised where the framework converts it — a bare WSGI callable must not let it escape: '
                'exception-escape analysis of wsgi_app); the reply body is the dispatcher text copy-only with the JSON content type, '
-               'status from status_by_error where configurable, empty 200 for a None verdict; the three fact records are compared.')
+               'status from status_by_error where configurable, empty 200 for a None verdict; the fact records are compared.')
     ck.trusted.append('framework accessor table: aiohttp Request.content_type and werkzeug/flask Request.mimetype are parameter-free media '
                       'types; werkzeug/flask Request.content_type is the raw header; Request.is_json is true only for application/json and +json')
-    ck.not_decided += ['equality of replies on concrete bodies', 'integrations other than aiohttp / flask / werkzeug']
+    ck.not_decided += ['equality of replies on concrete bodies',
+                       'the AMQP integrations (aio_pika, kombu): the property is worded for web frameworks',
+                       'django and starlette are not installed here: their handlers are read with the same rules, their framework '
+                       'tables (accessors, reply keywords) are from the frameworks\' documentation and cannot be re-derived from installed sources']
     media_type_tables(ck, prog)
     records = {}
+    gate_clean = {}
     # helpers extracted from the request handlers (reading the body, building the reply) are looked at as part of them
     from ..inline import inlined_program
     prog = inlined_program(prog, [handler_of(prog, prog.cls(cq)).qualname for cq, _ in INTEGRATIONS.values()])
@@ -372,6 +467,7 @@ def run(ck: Check, prog: Program) -> None:
         ck.functions.add(h.qualname)
         facts, problems = integration_facts(prog, fw, ci)
         records[fw] = facts
+        gate_clean[fw] = not any(p[0] == 'GATE-MEDIA' for p in problems)
         for rule in ('GATE-MEDIA', 'GATE-DOM', 'RELAY'):
             bad = [p for p in problems if p[0] == rule]
             ck.ob(rule, f'{fw}: {rule}', not bad, sample={'facts': facts} if rule == 'GATE-MEDIA' else None)
@@ -404,9 +500,10 @@ def run(ck: Check, prog: Program) -> None:
         else:
             ck.ob('GATE-ANSWER', f'{fw}: refusal raised inside a framework handler (converted to a reply by the framework)', True, nontrivial=False)
     # INTEG-SIBLINGS
-    gates = {fw: r.get('gate') for fw, r in records.items()}
-    same_gate = len({g for g in gates.values()}) == 1
-    ck.ob('INTEG-SIBLINGS', 'the three integrations use the same kind of gate', same_gate, sample={'gates': gates})
+    # an integration whose own gate is already reported is not reported a second time for differing from its siblings
+    gates = {fw: r.get('gate') for fw, r in records.items() if gate_clean.get(fw)}
+    same_gate = len({g for g in gates.values()}) <= 1
+    ck.ob('INTEG-SIBLINGS', 'the integrations use the same kind of gate', same_gate, sample={'gates': gates})
     if not same_gate:
         ck.finding('INTEG-SIBLINGS', 'pjrpc.server.integration', f'gate kinds differ: {gates}', 'pjrpc/server/integration', 0,
                    f'the same request is treated differently by the integrations: {gates}')
@@ -414,7 +511,8 @@ def run(ck: Check, prog: Program) -> None:
     ck.ob('INTEG-SIBLINGS', 'all integrations answer a None verdict with an empty reply', set(nones.values()) == {'empty response'}, sample={'none': nones})
     ck.extra['integration_records'] = records
     ck.extra['declared_differences'] = ['aiohttp relies on web.json_response\'s application/json while flask/werkzeug pass DEFAULT_CONTENT_TYPE',
-                                        'werkzeug offers no status_by_error hook: its status is always 200']
+                                        'werkzeug and django offer no status_by_error hook: their status is always 200',
+                                        'django and starlette decode the body themselves (inside the 400 guard); the others ask the framework for text']
 
 
 MUTANTS = [
